@@ -6,6 +6,7 @@ use crate::universe::{self, Bounds};
 use std::collections::BTreeMap;
 
 pub mod c01;
+pub mod c08;
 pub mod c11;
 pub mod c13;
 pub mod c14;
